@@ -137,6 +137,7 @@ func genHSearch(r *core.Rand, tier string) *hsCase {
 	ndocs := r.Range(1, maxDocs)
 	var live []uint32
 	var vpool [][]float32 // vectors added so far
+	lastText := ""
 	next := uint32(3_100_000_000)
 	search := func() hsCmd {
 		cmd := hsCmd{Op: "search", K: r.Range(1, len(live)+2)}
@@ -237,16 +238,28 @@ func genHSearch(r *core.Rand, tier string) *hsCase {
 				if v[0] == 0 {
 					v[0] = 1
 				}
+				dup := len(vpool) > 0 && r.Chance(0.2)
+				if dup {
+					// a near-duplicate of an earlier document: same text, a vector that differs in
+					// the last bits of one component — fused scores that differ only beyond float32
+					copy(v, vpool[len(vpool)-1])
+					j := r.Intn(len(v))
+					v[j] = math.Float32frombits(math.Float32bits(v[j]) + uint32(r.Range(1, 2)))
+				}
 				cmd.Vec = core.Bits(v)
 				vpool = append(vpool, v)
+				if dup && lastText != "" {
+					cmd.Text = lastText
+				}
 			}
-			if r.Chance(0.85) {
+			if cmd.Text == "" && r.Chance(0.85) {
 				var ws []string
 				for k := r.Range(1, 5); k > 0; k-- {
 					ws = append(ws, hsVocab[r.Intn(len(hsVocab))])
 				}
 				cmd.Text = strings.Join(ws, " ")
 			}
+			lastText = cmd.Text
 			if r.Chance(0.85) {
 				cmd.Meta = []atomicKV{{K: "n", V: fmt.Sprint(r.Range(0, 12)), Kind: "int"}, {K: "tag", V: fmt.Sprintf("t%d", r.Intn(3)), Kind: "str"}}
 				if r.Chance(0.3) {
@@ -429,7 +442,14 @@ func hsSearch(c *hsCase, idx comet.HybridSearchIndex, vec comet.VectorIndex, txt
 		hs = hs.WithFusionKind(comet.FusionKind(cmd.Fusion))
 		vw, tw, rk = 1, 1, 60
 	} else if cmd.Fusion != "" {
-		f, err := comet.NewFusion(comet.FusionKind(cmd.Fusion), &comet.FusionConfig{VectorWeight: vw, TextWeight: tw, K: rk})
+		fc := &comet.FusionConfig{VectorWeight: vw, TextWeight: tw, K: rk}
+		if (cmd.K+len(cmd.QT))%4 == 1 {
+			// the documented way to customise: take the default configuration and edit it (the
+			// library-wide defaults must not change with it)
+			fc = comet.DefaultFusionConfig()
+			fc.VectorWeight, fc.TextWeight, fc.K = vw, tw, rk
+		}
+		f, err := comet.NewFusion(comet.FusionKind(cmd.Fusion), fc)
 		if err != nil {
 			return "op panic fusion: " + err.Error()
 		}
